@@ -53,6 +53,12 @@ def run(rep, ctx):
         borrow(rep, c19.r1b_mechanism, ctx, "C19.R1b", "C16.R6")
     except AnalysisError as e:
         rep.error("C16.R6", str(e))
+    from . import c05
+    rep.rule("C16.R8", "the legacy rewrite in Quantity's constructor is reached whenever the spelling as given is refused: CheckCategoryUnit raises for every pair without a positive verdict, memoised or not (shared with C05.R3)")
+    try:
+        borrow(rep, c05.r3_check_category_unit, ctx, "C05.R3", "C16.R8")
+    except AnalysisError as e:
+        rep.error("C16.R8", str(e))
     rep.not_decided.append("equality of the conversion *results* for legacy vs current spelling beyond resolving to the same UnitInfo (follows from C01/C02 routes)")
 
 
